@@ -219,6 +219,66 @@ def leg_b(rep, tier, seed):
     return total
 
 
+def history_independence(rep, tier, seed):
+    """ReadOnly.tla: the result of a read call is a function of its inputs alone.  Conformance: a call made AFTER other
+    calls (the ==-but-differently-typed twin of its path first, then the path itself, then the twin again) must give what
+    the same call gives in a process-fresh library (valida re-imported: every module-level memo starts empty).
+    Runs last: the re-import leaves the write tracer's shims behind."""
+    from harness import common
+    from harness.props.pathdrv import retyped_twin
+
+    rng = random.Random(seed + 808)
+    n = 0
+    for _ in range(250 if tier == "quick" else 4000):
+        doc = gen.document(rng, depth=rng.choice([2, 3, 3]), strish=0.5)
+        rparts = gen.path_recipe(rng, doc, maxlen=3, p_prim=1.0)
+        if not rparts or not all(isinstance(p, tuple) for p in rparts):
+            continue
+        if retyped_twin(rparts) is None:
+            continue
+        entry = rng.choice(["Data_get_parts", "Data_get_parts", "Data_get_path", "get_data_raw"])
+        try:
+            history_case(rep, rparts, doc, entry)
+        except Unencodable:
+            continue
+        n += 1
+        rep.note_case(repr((rparts, doc, entry, "history")))
+    common.bind_source()
+    rep.traces += n
+    rep.evaluations += 4 * n
+    rep.extra["history_sequences"] = n
+    return n
+
+
+def history_case(rep, rparts, doc, entry):
+    from harness import common
+    from harness.props.pathdrv import retyped_twin
+
+    def call(entry, rparts, doc):
+        import valida
+        prims = [p[1] for p in rparts]
+        if entry == "Data_get_parts":
+            return outcome_of(lambda: enc_val(valida.Data(doc).get(*prims, return_paths=True)))
+        if entry == "Data_get_path":
+            return outcome_of(lambda: enc_val(valida.Data(doc).get(valida.DataPath(*prims), return_paths=True)))
+        return outcome_of(lambda: enc_val(valida.DataPath(*prims).get_data(doc, return_paths=True)))
+
+    twin = retyped_twin(rparts)
+    common.bind_source()
+    fresh_twin = call(entry, twin, doc)
+    common.bind_source()
+    first = call(entry, rparts, doc)
+    after = call(entry, twin, doc)
+    again = call(entry, rparts, doc)
+    if again != first:
+        rep.reject({"clause": "Repeatable", "leg": "H", "entry": entry},
+                   {"kind": "history", "rparts": to_lit(rparts), "doc": to_lit(doc), "entry": entry, "detail": "same call twice"})
+    if after != fresh_twin:
+        rep.reject({"clause": "ResultIndependentOfEarlierCalls", "leg": "H", "entry": entry},
+                   {"kind": "history", "rparts": to_lit(rparts), "doc": to_lit(doc), "entry": entry,
+                    "detail": f"twin after the path: {after[0]}, in a fresh library: {fresh_twin[0]}"})
+
+
 def run(rep, tier, seed):
     install()
     for cfg in (["MC_ReadOnly.cfg", "MC_ReadOnly_edits.cfg"] if tier == "quick" else
@@ -260,16 +320,27 @@ def run(rep, tier, seed):
     rep.extra["actions_taken"] = sorted(kinds)
     rep.sample({"behaviour": [h["call"] for h in uniq[0]["hist"]]})
     nb = leg_b(rep, tier, seed)
+    nh = history_independence(rep, tier, seed)
     rep.rule = (f"leg C: {len(uniq)} distinct TLC-generated sequences of validate / Rule.test / get_data / part.filter calls on "
                 "one shared schema (map-or-list part with a combined condition, two cast rules) and two documents, replayed "
                 "sequentially (write tracer, structural snapshots with object identity, result = specification = fresh "
                 f"objects) and from 4 threads; leg B: {nb} recorded calls of the C01-C07/C15/C17 drivers judged for an empty "
-                "write set and unchanged inputs")
+                "write set and unchanged inputs; leg H: " + str(nh) + " sequences path / ==-twin path / path / twin through Data.get and "
+                "get_data compared with the same call in a freshly imported library (module-level state)")
     rep.extra["events"] = nb
 
 
 def replay(rep, case):
     c = case["case"]
+    if c.get("kind") == "history":
+        from harness.common import from_lit
+        print("history case:", c.get("entry"), c.get("detail"))
+        history_case(rep, from_lit(c["rparts"]), from_lit(c["doc"]), c["entry"])
+        rep.traces += 1
+        rep.states += 1
+        rep.transitions += 1
+        rep.sample({"history": c.get("entry")})
+        return
     if c.get("kind") == "behaviour":
         try:
             replay_behaviour(c["pool"], c["behaviour"])
